@@ -1,7 +1,7 @@
 (* Model of the description side of lemoncheesecake/matching: MatcherDescriptionTransformer and every build_description.
 
    The transformer is a mutable Python object that build_description receives and may pass on to sub-matchers: here it is
-   a state threaded through the builder,  describe_st : matcher -> transf -> str * transf  (description, transformer after).
+   a state threaded through the builder,  describe_st ni cw : matcher -> transf -> str * transf  (description, transformer after).
    A sub-matcher that is given a *new* transformer object (MatcherDescriptionTransformer(conjugate=True), or the one the
    NotFresh variant of Not creates) cannot affect its parent's: its final state is dropped.
 
@@ -11,9 +11,14 @@
    MatcherDescriptionTransformer.__call__(description) | transform t d     (CONJUGATION_FORMS: ^(literal) = literal prefix;
                                                        |                    regular verbs: ^to (\w+), \w = ASCII word character)
    "...%s..." % args                                   | fill tpl args     (templates from gen/TablesMatchers.v)
-   X.build_description(transformation)                 | describe_st ni X t
+   X.build_description(transformation)                 | describe_st ni cw X t
    Not.build_description                               | NotMutates: negative := True on the shared object
                                                        | NotFresh:   new transformer, negation flipped   (ni : not_impl)
+   AllOf / AnyOf.build_description                     | composite ... (rel_all cw t) / (rel_any cw t): the relationship word is chosen
+                                                       | from the transformer as it is on entry   (cw : comp_words)
+                                                       | comp_of_source: the four words as they are in the source now (F9b repaired:
+                                                       | `"or" if transformation.negative else "and"` and dually);
+                                                       | comp_unfixed: the pre-F9b code, one word whatever the transformer
    _build_single_line_description_if_suitable          | inside composite  (`if description:` = non-empty string)
    _build_multi_line_description / _make_item          | multi_line / make_item
    operations._log_match_result (description part)     | log_description
@@ -33,6 +38,18 @@ Definition fresh : transf := {| t_conj := false; t_neg := false |}.          (* 
 Definition conjugated : transf := {| t_conj := true; t_neg := false |}.      (* MatcherDescriptionTransformer(conjugate=True) *)
 Definition set_negative (t : transf) : transf := {| t_conj := t_conj t; t_neg := true |}.
 Definition flip (t : transf) : transf := {| t_conj := t_conj t; t_neg := negb (t_neg t) |}.
+
+(* The relationship word of all_of / any_of under a positive / negative transformer.
+   comp_of_source is read off the source (gen/TablesMatchers.v): with fixes/F09b-*.patch the negative word of all_of is "or" and
+   that of any_of is "and" (De Morgan); a source with a single word per composite yields cw_all_neg = cw_all, cw_any_neg = cw_any.
+   comp_unfixed is the pre-F9b variant whatever the source says: the word does not depend on the transformer. *)
+Record comp_words := { cw_all : str; cw_all_neg : str; cw_any : str; cw_any_neg : str }.
+Definition comp_of_source : comp_words :=
+  {| cw_all := rel_and; cw_all_neg := rel_all_neg; cw_any := rel_or; cw_any_neg := rel_any_neg |}.
+Definition comp_unfixed : comp_words :=
+  {| cw_all := rel_and; cw_all_neg := rel_and; cw_any := rel_or; cw_any_neg := rel_or |}.
+Definition rel_all (cw : comp_words) (t : transf) : str := if t_neg t then cw_all_neg cw else cw_all cw.
+Definition rel_any (cw : comp_words) (t : transf) : str := if t_neg t then cw_any_neg cw else cw_any cw.
 
 (* Some rest when s = p ++ rest *)
 Fixpoint strip_prefix (p s : str) : option str :=
@@ -148,54 +165,54 @@ Definition any_wording (w : anyw) : str :=
 
 Definition jsonify_items_t (l : list pyval) : str := join items_sep (map jsonify l).
 
-Fixpoint describe_st (ni : not_impl) (m : matcher) (t : transf) {struct m} : str * transf :=
+Fixpoint describe_st (ni : not_impl) (cw : comp_words) (m : matcher) (t : transf) {struct m} : str * transf :=
   match m with
   | EqualTo e => (transform t (fill tpl_equal_to [jsonify e]), t)
   | Comparator c e => (transform t (fill tpl_comparator [cmp_wording c; jsonify e]), t)
   | IsBetween lo hi => (transform t (fill tpl_is_between [dec_Z lo; dec_Z hi]), t)
   | IsNone => (transform t (fill tpl_is_none []), t)
-  | HasLength m' => let '(s, _) := describe_st ni m' conjugated in (transform t (fill tpl_has_length [s]), t)
+  | HasLength m' => let '(s, _) := describe_st ni cw m' conjugated in (transform t (fill tpl_has_length [s]), t)
   | StartsWith s => (transform t (fill tpl_starts_with [s]), t)
   | EndsWith s => (transform t (fill tpl_ends_with [s]), t)
   | ContainsString s => (transform t (fill tpl_contains_string [s]), t)
-  | HasItem m' => let '(s, _) := describe_st ni m' conjugated in (transform t (fill tpl_has_item [s]), t)
+  | HasItem m' => let '(s, _) := describe_st ni cw m' conjugated in (transform t (fill tpl_has_item [s]), t)
   | HasItems l => (transform t (fill tpl_has_items [jsonify_items_t l]), t)
   | HasOnlyItems l => (transform t (fill tpl_has_only_items [jsonify_items_t l]), t)
-  | HasAllItems m' => let '(s, _) := describe_st ni m' conjugated in (transform t (fill tpl_has_all_items [s]), t)
+  | HasAllItems m' => let '(s, _) := describe_st ni cw m' conjugated in (transform t (fill tpl_has_all_items [s]), t)
   | IsIn l => (transform t (fill tpl_is_in [jsonify_items_t l]), t)
   | HasEntry path vm =>
       let ret := transform t (fill tpl_has_entry [join path_sep (map jsonify path)]) in
       match vm with
-      | Some m' => let '(s, _) := describe_st ni m' conjugated in (ret ++ has_entry_that ++ s, t)
+      | Some m' => let '(s, _) := describe_st ni cw m' conjugated in (ret ++ has_entry_that ++ s, t)
       | None => (ret, t)
       end
   | IsValueOfType ty vm =>
       let ret := transform t (fill tpl_is_type [type_wording ty]) in
       match vm with
-      | Some m' => let '(s, _) := describe_st ni m' conjugated in (ret ++ fill tpl_is_type_that [s], t)
+      | Some m' => let '(s, _) := describe_st ni cw m' conjugated in (ret ++ fill tpl_is_type_that [s], t)
       | None => (ret, t)
       end
   | AllOf ms =>
       composite (fix descs (ms : list matcher) (t : transf) : list str * transf :=
                    match ms with
                    | [] => ([], t)
-                   | m' :: r => let '(s, t1) := describe_st ni m' t in let '(ss, t2) := descs r t1 in (s :: ss, t2)
-                   end) ms rel_and t
+                   | m' :: r => let '(s, t1) := describe_st ni cw m' t in let '(ss, t2) := descs r t1 in (s :: ss, t2)
+                   end) ms (rel_all cw t) t
   | AnyOf ms =>
       composite (fix descs (ms : list matcher) (t : transf) : list str * transf :=
                    match ms with
                    | [] => ([], t)
-                   | m' :: r => let '(s, t1) := describe_st ni m' t in let '(ss, t2) := descs r t1 in (s :: ss, t2)
-                   end) ms rel_or t
+                   | m' :: r => let '(s, t1) := describe_st ni cw m' t in let '(ss, t2) := descs r t1 in (s :: ss, t2)
+                   end) ms (rel_any cw t) t
   | Anything w => (transform t (any_wording w), t)
   | Not m' =>
       match ni with
-      | NotMutates => describe_st ni m' (set_negative t)                       (* the caller's object stays negative *)
-      | NotFresh => let '(s, _) := describe_st ni m' (flip t) in (s, t)
+      | NotMutates => describe_st ni cw m' (set_negative t)                       (* the caller's object stays negative *)
+      | NotFresh => let '(s, _) := describe_st ni cw m' (flip t) in (s, t)
       end
   | Wrapper m' descr _ =>
       match descr with
-      | None => describe_st ni m' t
+      | None => describe_st ni cw m' t
       | Some d => (transform t d, t)
       end
   end.
@@ -210,13 +227,13 @@ Definition layout (ms : list matcher) (rel : str) (ds : list str) : str :=
     else match d with [] => multi_line rel ds | _ => d end.
 
 (* matcher.build_description(MatcherDescriptionTransformer()) *)
-Definition describe (ni : not_impl) (m : matcher) : str := fst (describe_st ni m fresh).
+Definition describe (ni : not_impl) (cw : comp_words) (m : matcher) : str := fst (describe_st ni cw m fresh).
 
 (* the sentence of the check: "Expect <hint> <description>" / "Expect <description>" *)
-Definition log_description (ni : not_impl) (hint : option str) (m : matcher) : str :=
+Definition log_description (ni : not_impl) (cw : comp_words) (hint : option str) (m : matcher) : str :=
   match hint with
-  | Some h => fill tpl_expect_hint [h; describe ni m]
-  | None => fill tpl_expect [describe ni m]
+  | Some h => fill tpl_expect_hint [h; describe ni cw m]
+  | None => fill tpl_expect [describe ni cw m]
   end.
 
 (* the accepted set of a matcher (specification side of C17) *)
@@ -313,6 +330,27 @@ Fixpoint fsem (val : nat -> bool) (e : fexpr) : bool :=
   | FL l => lit_sem val l
   | FAllN es => forallb (fsem val) es
   | FAnyN es => existsb (fsem val) es
+  end.
+
+(* not_ applied to such an expression.  Not.build_description hands the expression a transformer with the negation flipped,
+   which every build_description below passes on to its operands: each composite picks its relationship word from it
+   (`"or" if transformation.negative else "and"`, dually for any_of: tok_all / tok_any) and each leaf takes its negative
+   form (a literal that is itself a negated leaf takes the positive one: neg_lit).  render_under single false = render single;
+   render_under single true e is the token-level description of not_(e).  The layout rule is the same (it looks at the operand
+   objects, which are the same, and at their descriptions: `single` is any function of the operands and of the flag). *)
+Definition neg_lit (neg : bool) (l : lit) : lit := let '(Lit id n) := l in Lit id (xorb neg n).
+Definition tok_all (neg : bool) : tok := if neg then TOr else TAnd.
+Definition tok_any (neg : bool) : tok := if neg then TAnd else TOr.
+
+Fixpoint render_under (single : bool -> list fexpr -> bool) (neg : bool) (e : fexpr) : doc :=
+  match e with
+  | FL l => DLine [TLit (neg_lit neg l)]
+  | FAllN es => if forallb fexpr_is_lit es && single neg es
+                then DLine (single_line_toks (tok_all neg) (map (neg_lit neg) (fexpr_lits es)))
+                else DItems (doc_items (tok_all neg) (map (render_under single neg) es) true)
+  | FAnyN es => if forallb fexpr_is_lit es && single neg es
+                then DLine (single_line_toks (tok_any neg) (map (neg_lit neg) (fexpr_lits es)))
+                else DItems (doc_items (tok_any neg) (map (render_under single neg) es) true)
   end.
 
 Definition item_is_or (it : option tok * doc) : bool := match fst it with Some TOr => true | _ => false end.
